@@ -15,7 +15,14 @@ def run(chk):
     chk.assumptions = ["family = STIXError subclasses, ValueError, TypeError (isinstance); everything else counts as internal",
                        "JSON-decodable input only; nesting depth 150 (deeper is bounded by the interpreter's own JSON decoder)"]
     om.s1(chk)
-    lines = om.emit_lines(chk, quick, junk=True) + om.state_lines(chk)
+    om.custom_types()
+    before = om.deep_registry_snapshot()
+    lines = om.emit_lines(chk, quick, junk=True)
+    after = om.deep_registry_snapshot()
+    # everything that was registered before the run of bad (and good) inputs says afterwards what it said before; types the run registers itself come on top
+    changed = sorted(k for k in before if after.get(k) != before[k])
+    lines.append({"kind": "state", "how": "whole_run_of_inputs:registered_classes_changed=%s" % ",".join(changed[:5]), "unchanged": not changed})
+    lines += om.state_lines(chk)
     for ln in lines:
         chk.case([ln.get("v"), ln.get("key"), ln.get("ctx", ln.get("how", "")).split(":")[-2:], ln.get("strict"), ln.get("exc", "")])
 
